@@ -460,7 +460,7 @@ Section Core.
   Proof.
     intro H. unfold set_inserter. fbi ok Hok. destruct (negb ok); [apply framed_fail|].
     fbi p Hp. subst coll. simpl in H.
-    fbindT; [destruct (py_truthy index); [fprim|now fret]|]. intros xs1 _. fbi b0 Hb0. fprim.
+    fbindT; [destruct (negb (is_missing index)); [fprim|now fret]|]. intros xs1 _. fbi b0 Hb0. fprim.
   Qed.
 
   Lemma create_collection_framed sp : framed b (create_collection rec sp) (freshv b).
@@ -524,8 +524,16 @@ Section Core.
   Lemma prepare_attr_value_framed sp inst value attrs :
     framed b (prepare_attr_value ct rec sp inst value attrs) (fun _ => True).
   Proof.
-    unfold prepare_attr_value. fbindT; [apply rec_framed; reflexivity|]. intros v _.
-    destruct (ty_is_collection (a_ty sp)); [apply coll_prepare_framed|now fret].
+    unfold prepare_attr_value.
+    assert (H : framed b
+      (v <- rec (KMutateValue
+                  (mkmv VMissing value false
+                        (match a_prepare sp with Some f => PAttr f | None => PNone end)
+                        attrs (Some (ctor_of_ty (a_ty sp))) (Some (a_ty sp)) None [] false)) ;;
+       if ty_is_collection (a_ty sp) then coll_prepare ct rec sp inst v else ret v) (fun _ => True)).
+    { fbindT; [apply rec_framed; reflexivity|]. intros v _.
+      destruct (ty_is_collection (a_ty sp)); [apply coll_prepare_framed|now fret]. }
+    destruct value; try exact H. now fret.
   Qed.
   Hint Resolve prepare_attr_value_framed : fr.
 
@@ -637,6 +645,13 @@ Section Helpers.
     - apply protect_framed; auto.
   Qed.
 
+  Lemma current_value_framed l sp inplace used :
+    framed b (current_value ct l sp inplace used) (fun _ => True).
+  Proof.
+    unfold current_value. fbi v Hv. destruct (inplace || a_dnc sp || negb used); [now fret|].
+    eapply framed_weaken; [apply protect_framed; auto|auto].
+  Qed.
+
   Lemma with_attr_framed l sp new attrs :
     framed b (with_attr ct l sp new attrs false) (fun _ => True).
   Proof.
@@ -656,11 +671,21 @@ Section Helpers.
     intro Hin. unfold run_helper. destruct (negb (h_if h)); [now fret|]. rewrite Hin.
     destruct hp.
     - (* HWith *) fbindT; [apply spec_for_framed|]. intros r _. apply with_attr_framed.
-    - (* HUpdate *) fbindT; [apply spec_for_framed|]. intros r _. cbv zeta.
-      fbi old Hold. fbindT; [eapply framed_weaken; [apply Hrec; reflexivity|auto]|]. intros v _.
-      apply with_attr_framed.
+    - (* HUpdate *)
+      assert (H : forall p0, framed b
+        (r <- spec_for ct l a ;; let sp := snd r in
+         old <- current_value ct l sp false (is_sentinel p0) ;;
+         v <- rec (KMutateValue (mkmv old p0 false PNone (h_kw h)
+                                      (Some (ctor_of_ty (a_ty sp))) (Some (a_ty sp)) None [] false)) ;;
+         with_attr ct l sp v None false) (fun _ => True)).
+      { intro p0. fbindT; [apply spec_for_framed|]. intros r _. cbv zeta.
+        fbindT; [apply current_value_framed|]. intros old _.
+        fbindT; [eapply framed_weaken; [apply Hrec; reflexivity|auto]|]. intros v _.
+        apply with_attr_framed. }
+      destruct (pos0 h) eqn:Ep; try apply H. now fret.
     - (* HTransform *) fbindT; [apply spec_for_framed|]. intros r _. cbv zeta.
-      fbi old Hold. fbindT; [eapply framed_weaken; [apply Hrec; reflexivity|auto]|]. intros v _.
+      fbindT; [apply current_value_framed|]. intros old _.
+      fbindT; [eapply framed_weaken; [apply Hrec; reflexivity|auto]|]. intros v _.
       apply with_attr_framed.
     - (* HReset *) simpl. fbind; [apply copy_loc_framed|]. intros l' Hl'.
       fbindT; [|intros; now fret].
@@ -684,7 +709,10 @@ Section Helpers.
           (eapply framed_weaken; [apply mutate_collection_framed; auto|auto]). }
       intros c' _. apply mutate_attr_framed; auto. discriminate.
     - (* HWithoutItem *) fbindT; [apply spec_for_framed|]. intros r _. cbv zeta.
-      fbind; [apply mk_mutator_framed|]. intros c Hc.
+      fbind; [apply mk_mutator_framed|]. intros c0 Hc0.
+      eapply framed_bind with (Q := freshv b).
+      { destruct (is_missing c0); [apply create_collection_framed; auto|now fret]. }
+      intros c Hc.
       fbindT.
       { destruct (family_of (a_ty (snd r))) as [[| |]|]; try apply framed_fail.
         - fbindT; [apply seq_extractor_framed|]. intros ex _.
